@@ -65,16 +65,19 @@ class Observer:
         o_record = BaseProject._BaseProject__record
         o_cost = BaseOrganization.add_labor_cost
 
-        def update(self_):
-            r = o_update(self_)
+        # the wrappers pass every argument through unchanged, so a refactoring that adds parameters to the wrapped
+        # methods does not break the observer
+        def update(self_, *a, **k):
+            r = o_update(self_, *a, **k)
             if self_ is obs.M.project:
                 obs._phase("updated")
             return r
 
-        def record(self_, working=True):
+        def record(self_, *a, **k):
+            working = k.get("working", a[0] if a else True)
             if self_ is obs.M.project:
                 obs._phase("performed")
-            r = o_record(self_, working)
+            r = o_record(self_, *a, **k)
             if self_ is obs.M.project:
                 obs._cur["working"] = bool(working)
                 obs._phase("recorded")
